@@ -41,8 +41,10 @@ class FileManager:
         note_lines = note.to_string().split("\n")
         if zlines[start_idx].strip() != "":
             # The page does not end with a newline: there is no blank line that
-            # the note can take the place of, so append the note instead.
-            new_zlines = zlines[: start_idx + 1] + note_lines
+            # the note can take the place of, so append the note instead (after
+            # an empty line unless the page ends with a note).
+            separator = [] if in_note else [""]
+            new_zlines = zlines[: start_idx + 1] + separator + note_lines
         elif (
             not found_note
             and start_idx > 0
